@@ -171,6 +171,9 @@ func VH_C09_hostile_then_honest(n int, h int, two int, where int) {
 		}
 		s := (start+i)%n + 1
 		es := []cert.VEntry{{Claimed: hotstuff.ID(s), Owner: s - 1, Msg: 0}}
+		if h == 0 && i == q-1 {
+			vassert(len(qcs) == 0, "no-qc-from-fewer-than-quorum-size-votes")
+		}
 		vm.CollectVote(hotstuff.VoteMsg{ID: hotstuff.ID(s), PartialCert: hotstuff.NewPartialCert(w.Multi(es, msgs), B.Hash())})
 		for el.Tick(context.Background()) {
 		}
